@@ -285,6 +285,13 @@ func runC06(r *ev.Run) {
 	})
 	r.Set("game_searches_on_persistent_instances", gameSearches.Load())
 
+	// (b) the stop channel observed closed at the i-th poll for EVERY i (instrumented fault-plan run:
+	// reaches the polls after a child returns, in the quiescence loop and at the root)
+	stopRuns := c06StopSweep(r)
+	r.Set("stop_poll_sweep_searches", stopRuns)
+	abortPoints.Add(stopRuns)
+	searches.Add(stopRuns)
+
 	// (d) through the UCI `go` command with arbitrary numeric arguments
 	uciN := c06UCI(r)
 
